@@ -37,6 +37,10 @@ CHECKS = [
      'technique': 'deterministic simulation: seeded mutation histories on aliasing UnicodeSubset/CharacterClass objects vs a 0x110000-bit bitset model; install_unicode_data histories with simulated download faults and exhaustive table comparison with unicodedata',
      'text': 'Histories of set operations (aimed at the overlap geometries of the current representation, with operands that are other pool members, the object itself or the shared global table objects) are compared bit for bit with a big-integer model; canonical form, extensional equality, operand immutability and absence of aliasing into the global tables are checked after every step. A second arm installs Unicode data versions (also from a simulated URL with failing and torn downloads) and checks the tables exhaustively against unicodedata, structural invariants for every version, failed-install atomicity and cache invalidation.',
      'note': 'Category model is the running interpreter\'s unicodedata; versions other than the interpreter\'s are checked structurally only.'},
+    {'id': 'C04', 'level': 'exploration', 'design_ref': 'DESIGN.md section 2, C04',
+     'technique': 'deterministic simulation over the interpreter hash seed: one fresh interpreter per seeded PYTHONHASHSEED processing the same corpus, cross-run equality of token trees/sources/values; EBNF-rendered operator trees, layout invariance and source round trip inside every run',
+     'text': 'The simulated dimension is the hash seed the property names: each run is a fresh interpreter with its own PYTHONHASHSEED that builds the four parsers and processes the same seed-derived corpus; token trees, sources, round-trip trees and values must be identical across all interpreters while the tokenizer pattern text may differ (the number of distinct patterns reached is reported). Inside every run the tree must equal the operator tree the text was rendered from by the EBNF precedence/associativity tables, be invariant under whitespace/comment placement, and its source must re-parse to the same tree and value; non-associative chains must be rejected.',
+     'note': 'Trusts the transcription of the operator tables; the grouping clauses are schedule-independent and ride along, the cross-seed comparison is what the simulated dimension decides.'},
 ]
 
 NOT_APPLICABLE = [
